@@ -152,7 +152,9 @@ def mutated_case(rng):
         i = rng.randint(4, len(pl))
         pl[i:i] = bytes(rng.randint(1, 3))                              # extra padding
     elif r < 0.9:
-        length = rng.choice([0, 4, 7, 8, 4 + len(pl) + rng.randint(1, 40), 4 + len(pl) - 1, 65535])
+        # a length field the RadioTap layer itself rejects (the bytes after the header are always TAIL: the inner
+        # 802.11 parser is not part of the model)
+        length = rng.choice([0, 4, 7, 4 + len(pl) + rng.randint(25, 60), 65535])
     else:
         pl = bytearray(rng.randrange(256) for _ in range(rng.choice([4, 5, 8, 12, 20])))
     ops = ["parse " + hexs(header(bytes(pl), length=length))]
